@@ -71,6 +71,7 @@ type Box struct {
 	lock                        sync.RWMutex
 	pendingMessages             map[string]*storedMessages
 	startedSending              map[string]uint64
+	draining                    map[string]struct{}
 	totalInFlightTopicsBySender map[uint16]map[string]struct{}
 	//Config
 	MessageHandler
@@ -122,78 +123,48 @@ func (b *Box) HandleMessage(msg *IncMessage) {
 	}
 }
 
-func (b *Box) getOrCreateMessagesByTopic(topic []byte) *storedMessages {
-	b.initialize()
-
-	b.lock.RLock()
-	messages, exists := b.pendingMessages[string(topic)]
-	b.lock.RUnlock()
-
-	if exists {
-		return messages
-	}
-	verifPoint("goc.upgradeGap")
-
-	b.lock.Lock()
-	defer b.lock.Unlock()
-
-	messages, exists = b.pendingMessages[string(topic)]
-	if !exists {
-		messages = &storedMessages{logger: b.Logger, messageCountPerSender: make(map[uint16]int)}
-	}
-
-	b.pendingMessages[string(topic)] = messages
-	return messages
-}
-
 func (b *Box) storeOrForward(msg *IncMessage) {
 	b.initialize()
 
-	verifPoint("sof.beforeStartedCheck")
-	if b.hasStartedSending(msg.Topic) {
+	verifPoint("sof.beforeLock")
+	// Whether the topic has started is decided under the same lock under which the message is stored,
+	// otherwise a concurrent first Send may drain the buffer in between and the message is stuck forever.
+	b.lock.Lock()
+	if _, started := b.startedSending[string(msg.Topic)]; started {
+		b.lock.Unlock()
 		verifPoint("sof.beforeForward")
 		b.MessageHandler.HandleMessage(msg)
 		return
 	}
 
-	verifPoint("sof.afterStartedCheck")
-	var tooManyTopicsFromSender bool
-
-	b.lock.RLock()
 	if activeTopicsFromSource, exists := b.totalInFlightTopicsBySender[msg.Source]; exists {
-		tooManyTopicsFromSender = len(activeTopicsFromSource) > b.MaxInFlightTopicsBySender
+		if len(activeTopicsFromSource) > b.MaxInFlightTopicsBySender {
+			b.lock.Unlock()
+			b.Logger.Warnf("Received too many topics from %d (limit is %d)", msg.Source, b.MaxInFlightTopicsBySender)
+			return
+		}
 	}
-	b.lock.RUnlock()
-
-	if tooManyTopicsFromSender {
-		b.Logger.Warnf("Received too many topics from %d (limit is %d)", msg.Source, b.MaxInFlightTopicsBySender)
-		return
-	}
-
-	verifPoint("sof.beforeMark")
-	b.markTopicForSender(msg)
-
-	verifPoint("sof.afterMark")
-	messages := b.getOrCreateMessagesByTopic(msg.Topic)
-	verifPoint("sof.beforeAdd")
-	messages.add(msg, atomic.LoadUint64(&b.currentGCEpochNum))
-	verifPoint("sof.afterStore")
-}
-
-func (b *Box) markTopicForSender(msg *IncMessage) {
-	b.lock.Lock()
-	defer b.lock.Unlock()
 
 	if _, exists := b.totalInFlightTopicsBySender[msg.Source]; !exists {
 		b.totalInFlightTopicsBySender[msg.Source] = make(map[string]struct{})
 	}
 	b.totalInFlightTopicsBySender[msg.Source][string(msg.Topic)] = struct{}{}
+
+	messages, exists := b.pendingMessages[string(msg.Topic)]
+	if !exists {
+		messages = &storedMessages{logger: b.Logger, messageCountPerSender: make(map[uint16]int)}
+		b.pendingMessages[string(msg.Topic)] = messages
+	}
+	messages.add(msg, atomic.LoadUint64(&b.currentGCEpochNum))
+	b.lock.Unlock()
+	verifPoint("sof.afterStore")
 }
 
 func (b *Box) initialize() {
 	b.init.Do(func() {
 		b.pendingMessages = make(map[string]*storedMessages)
 		b.startedSending = make(map[string]uint64)
+		b.draining = make(map[string]struct{})
 		b.totalInFlightTopicsBySender = make(map[uint16]map[string]struct{})
 		b.startClock()
 	})
@@ -281,30 +252,48 @@ func (b *Box) Send(msgType uint8, topic []byte, msg []byte, to ...UniversalID) {
 
 	verifPoint("send.beforeLock")
 	b.lock.Lock()
-	b.startedSending[string(topic)] = atomic.LoadUint64(&b.currentGCEpochNum)
-	msgs := b.pendingMessages[string(topic)]
-	var messages []*IncMessage
-	if msgs != nil {
-		msgs.lock.RLock()
-		messages = msgs.messages
-		msgs.lock.RUnlock()
-		// The topic has started: it no longer counts against the senders that had messages buffered for it
-		for _, sender := range msgs.senders() {
-			delete(b.totalInFlightTopicsBySender[sender], string(topic))
+	_, started := b.startedSending[string(topic)]
+	_, drainingElsewhere := b.draining[string(topic)]
+	if started || drainingElsewhere {
+		if started {
+			b.startedSending[string(topic)] = atomic.LoadUint64(&b.currentGCEpochNum)
 		}
+		b.lock.Unlock()
+		verifPoint("send.afterUnlock")
+		b.ForwardSend(msgType, topic, msg, to...)
+		return
 	}
 
-	defer func() {
+	// First send on this topic: hand over everything buffered so far, in arrival order,
+	// and only then let newly arriving messages bypass the buffer.
+	b.draining[string(topic)] = struct{}{}
+	for {
+		msgs := b.pendingMessages[string(topic)]
+		var messages []*IncMessage
+		if msgs != nil {
+			msgs.lock.RLock()
+			messages = msgs.messages
+			msgs.lock.RUnlock()
+			// The topic has started: it no longer counts against the senders that had messages buffered for it
+			for _, sender := range msgs.senders() {
+				delete(b.totalInFlightTopicsBySender[sender], string(topic))
+			}
+		}
+		delete(b.pendingMessages, string(topic))
+		if len(messages) == 0 {
+			b.startedSending[string(topic)] = atomic.LoadUint64(&b.currentGCEpochNum)
+			delete(b.draining, string(topic))
+			b.lock.Unlock()
+			break
+		}
+		b.lock.Unlock()
 		verifPoint("send.beforeFlush")
-		for _, msg := range messages {
-			b.HandleMessage(msg)
+		for _, m := range messages {
+			b.MessageHandler.HandleMessage(m)
 			verifPoint("send.betweenFlush")
 		}
-	}()
-
-	delete(b.pendingMessages, string(topic))
-
-	b.lock.Unlock()
+		b.lock.Lock()
+	}
 	verifPoint("send.afterUnlock")
 
 	b.ForwardSend(msgType, topic, msg, to...)
